@@ -63,6 +63,13 @@ impl CDriver {
     }
     /// clockbound_open; Ok(()) or the error as reported to C.
     pub fn open(&mut self, path: &str) -> Result<(), NowOut> {
+        // The driver keeps one clockbound_err for all its calls, like a client retrying in a loop.
+        // Every open is preceded by a failing open of a missing file, so that the struct holds
+        // {SYSCALL, ENOENT, "open"} beforehand: whatever the library leaves untouched shows up,
+        // and a case does not depend on the cases that ran before it.
+        let _ = writeln!(self.stdin, "O /nonexistent-clockbound-verif/prime");
+        let _ = self.stdin.flush();
+        let _ = self.line();
         let _ = writeln!(self.stdin, "O {}", path);
         let _ = self.stdin.flush();
         let l = self.line();
